@@ -75,6 +75,8 @@ type Registry struct {
 	Hook func(r *Request, req *http.Request)
 	// Extra handles non-blob paths (manifests, token endpoints); return nil to fall through to 404.
 	Extra func(r *Request, req *http.Request) *http.Response
+	// PostHook may replace or mutate a response before it is returned (hostile transport, C04).
+	PostHook func(r *Request, req *http.Request, resp *http.Response) *http.Response
 
 	Log      []*Request
 	Down     bool // unreachable: every request fails with a connection error
@@ -170,6 +172,9 @@ func (r *Registry) RoundTrip(req *http.Request) (*http.Response, error) {
 		return nil, req.Context().Err()
 	}
 	resp := r.serve(t, rec, req, fault)
+	if r.PostHook != nil {
+		resp = r.PostHook(rec, req, resp)
+	}
 	rec.Status = resp.StatusCode
 	return resp, nil
 }
